@@ -19,7 +19,7 @@ from typing import cast
 
 import elementpath.aliases as ta
 
-from elementpath.datatypes import AbstractDateTime, ArithmeticProxy, Duration, NumericProxy
+from elementpath.datatypes import AbstractDateTime, ArithmeticProxy, Duration, Float, NumericProxy
 from elementpath.xpath_nodes import XPathNode, ElementNode, DocumentNode
 
 from elementpath.exceptions import ElementPathTypeError
@@ -168,6 +168,14 @@ def nud__plus_minus_operators(self: XPathToken) -> XPathToken:
     return self
 
 
+def promoted_float(op1: object, op2: object, value: float) -> float:
+    """An xs:float/xs:double result of the promoted type: an xs:float unless an operand is an xs:double."""
+    for op in (op1, op2):
+        if isinstance(op, float) and not isinstance(op, Float):
+            return float(value)
+    return Float(value) if isinstance(op1, Float) or isinstance(op2, Float) else float(value)
+
+
 @method(infix('div', bp=45))
 def evaluate__div_operator(self: XPathToken, context: ta.ContextType = None) \
         -> int | float | decimal.Decimal | ta.AnyItemsOrEmpty:
@@ -201,11 +209,11 @@ def evaluate__div_operator(self: XPathToken, context: ta.ContextType = None) \
             isinstance(divisor, (int, decimal.Decimal)):
         raise self.error('FOAR0001')
     elif dividend == 0 or dividend != dividend:  # NaN test without converting a huge integer
-        return math.nan
-    elif dividend > 0:
-        return float('-inf') if str(divisor).startswith('-') else float('inf')
+        return promoted_float(dividend, divisor, math.nan)
+    elif (dividend > 0) != str(divisor).startswith('-'):
+        return promoted_float(dividend, divisor, math.inf)
     else:
-        return float('inf') if str(divisor).startswith('-') else float('-inf')
+        return promoted_float(dividend, divisor, -math.inf)
 
 
 @method(infix('mod', bp=45))
@@ -219,13 +227,13 @@ def evaluate__mod_operator(self: XPathToken, context: ta.ContextType = None) \
     elif op2 is None:
         raise self.error('XPTY0004', '2nd operand is an empty sequence')
     elif op2 == 0 and (isinstance(op1, float) or isinstance(op2, float)):
-        return math.nan
+        return promoted_float(op1, op2, math.nan)
 
     try:
         if isinstance(op1, int) and isinstance(op2, int):
             return abs(op1) % abs(op2) if op1 >= 0 else -(abs(op1) % abs(op2))
         elif isinstance(op2, float) and math.isinf(op2) and not math.isinf(op1) and op1 != 0:
-            return op1 if self.parser.version != '1.0' else math.nan
+            return promoted_float(op1, op2, op1) if self.parser.version != '1.0' else math.nan
         result = op1 % op2  # type: ignore[operator]
         if isinstance(result, float) and not math.isnan(result):
             # Python's float modulo is floored, XPath requires the truncating remainder
